@@ -188,7 +188,7 @@ func buildTable() *Node {
 			leaf("len", "string"), leaf("pat", "string"),
 			leaf("lo", "uint32"), leaf("hi", "uint32"), leaf("ilo", "int32"), leaf("ihi", "int32"),
 			leaf("mode", "string"), leaf("modedep", "string"),
-			leaf("defmode", "string", def("on")), leaf("defdep", "string"),
+			leaf("defmode", "string", def("on")), leaf("defdep", "string"), leaf("defdep2", "string"),
 			list("svc", "name", leaf("name", "string"), leaf("kind", "string"), leaf("note", "string"), leaf("weight", "uint8", def("5")), leaf("dd", "string")),
 			cont("mc", presence(), leaf("musthave", "string"), leaf("opt", "string"), leaf("mcd", "string", def("d"))),
 			list("ref", "name", leaf("name", "string"),
